@@ -356,6 +356,18 @@ def run(ctx, V):
                 lon = rng.uniform(0, 2 * math.pi)
                 t = T.toast_tile_for_point(depth, lat, lon, cs)
                 add_tile("lookup", planet, t, dict(depth=depth, lat=lat, lon=lon))
+            # ... and a given position is OBTAINED by looking up a point inside it: the centre of the tile that
+            # single-tile construction gives for (n, x, y) must look up to (n, x, y) itself (all of levels 1-2,
+            # sampled deeper), with the same corners
+            wanted = [(n, x, y) for n in (1, 2) for x in range(2 ** n) for y in range(2 ** n)]
+            wanted += [(n, rng.randrange(2 ** n), rng.randrange(2 ** n)) for n in (3, 3, 4, 5, 7, 9, 12) for _ in range(3 if quick else 12)]
+            for p in wanted:
+                ref = T.create_single_tile(Pos(*p), cs)
+                c = TT.centre_lonlat(ref)
+                t = T.toast_tile_for_point(p[0], c[1], c[0] % (2 * math.pi), cs)
+                if tuple(map(int, t.pos)) != tuple(p):
+                    prop_fail[planet].append(f"point lookup of the centre of tile {p} returns position {tuple(map(int, t.pos))}")
+                add_tile("lookup", planet, t, dict(depth=p[0], lat=c[1], lon=c[0]))
         rec.real_mid = orig
 
     # ---- model side
